@@ -36,9 +36,19 @@ def alt_harness():
     """A copy of the harness workspace whose path dependencies point at REPO (only when REPO is not /repo)."""
     if os.path.realpath(REPO) == "/repo":
         return HARNESS
-    import re as _re
+    import threading, fcntl
     dst = _ALT_HARNESS
     os.makedirs(dst, exist_ok=True)
+    # one copy at a time (setup builds configurations from several threads; other processes may use the same checkout)
+    with _ALT_LOCK, open(dst + ".lock", "w") as lf:
+        fcntl.flock(lf, fcntl.LOCK_EX)
+        return _alt_harness_sync(dst)
+
+
+_ALT_LOCK = __import__("threading").Lock()
+
+
+def _alt_harness_sync(dst):
     tmp = dst + ".new"
     shutil.rmtree(tmp, ignore_errors=True)
     os.makedirs(tmp)
